@@ -129,6 +129,7 @@ pub struct Tally {
     pub viol_samples: Vec<String>,
     pub known_samples: BTreeMap<String, String>,
     pub samples: Vec<String>,
+    pub per_key: BTreeMap<String, u32>,
 }
 
 pub fn fnv(s: &str) -> u64 {
@@ -169,7 +170,9 @@ impl Tally {
             Verdict::Corr(d) => {
                 self.in_domain += 1;
                 self.corr_mismatch += 1;
-                if self.corr_samples.len() < 25 {
+                let pk = self.per_key.entry(format!("c{}", dist_key)).or_insert(0);
+                *pk += 1;
+                if *pk <= 2 && self.corr_samples.len() < 300 {
                     self.corr_samples.push(format!("{{\"case\":{:?},\"impl\":{:?},\"lean\":{:?},\"why\":{:?}}}", case, imp, drv, d));
                 }
             }
@@ -184,7 +187,9 @@ impl Tally {
                     }
                     None => {
                         self.oracle_viol += 1;
-                        if self.viol_samples.len() < 25 {
+                        let pk = self.per_key.entry(format!("v{}", dist_key)).or_insert(0);
+                        *pk += 1;
+                        if *pk <= 2 && self.viol_samples.len() < 300 {
                             self.viol_samples
                                 .push(format!("{{\"case\":{:?},\"impl\":{:?},\"lean\":{:?},\"why\":{:?}}}", case, imp, drv, d));
                         }
